@@ -476,6 +476,18 @@ func executeB(t *testing.T, c CaseB) (kind, detail string, steps int) {
 			case ch == 's':
 				p.write(p.sW, p.sOut, pattern(0x80, sOff, 6))
 				sOff += 6
+			case ch == 'w' || ch == 'W':
+				// the application's writer gives up waiting: a Write with a deadline that passes
+				// before any exchange; what it reports as written stays queued and must arrive
+				q, sd, tag, off := p.cOut, p.cW, byte(0x11), &cOff
+				if ch == 'W' {
+					q, sd, tag, off = p.sOut, p.sW, byte(0x80), &sOff
+				}
+				q.SetWriteDeadline(time.Now().Add(time.Second))
+				p.write(sd, q, pattern(tag, *off, 6))
+				*off += 6
+				bubble.Advance(2 * time.Second)
+				q.SetWriteDeadline(time.Time{})
 			case ch == 'r' || ch == 'R':
 				// the application's reader gives up waiting: a Read with a deadline that passes
 				// (net.Conn contract); only meaningful when nothing is there to read
@@ -647,6 +659,11 @@ func casesA(thorough bool, f int) []CaseA {
 	}
 	rec(nil)
 	var out []CaseA
+	// every write size from 1 byte to a little over two fragments, each way, on a loss-free path
+	// (what a size does to the encoded name / answer is codec arithmetic, not queue logic)
+	for n := 1; n <= 2*f+2; n++ {
+		out = append(out, CaseA{Layer: "A", Ops: []OpA{{"cw", n}}}, CaseA{Layer: "A", Ops: []OpA{{"sw", n}}})
+	}
 	for _, s := range scripts {
 		out = append(out, CaseA{Layer: "A", Ops: s})
 		// outages: the path loses every query / answer for several consecutive exchanges, enough to
@@ -811,10 +828,10 @@ func TestCheck(t *testing.T) {
 	// Layer B (iv): readers that give up waiting (a Read whose deadline passes) anywhere in the
 	// sequence: all sequences up to the depth over a reduced alphabet + {r, R}
 	{
-		alphaR := "cs02rR"
+		alphaR := "cs02rRwW"
 		var rec func(prefix string)
 		rec = func(prefix string) {
-			if strings.ContainsAny(prefix, "rR") {
+			if strings.ContainsAny(prefix, "rRwW") {
 				if r.Mine(idx) {
 					c := CaseB{Layer: "B", Start: 65534, Ops: prefix}
 					k, d, s := executeB(t, c)
@@ -822,7 +839,7 @@ func TestCheck(t *testing.T) {
 				}
 				idx++
 			}
-			if len(prefix) == depth {
+			if len(prefix) == depth-1 {
 				return
 			}
 			for _, ch := range alphaR {
